@@ -229,6 +229,192 @@ def check_truncation_semantics(prog, ctx):
     ctx.check(ok, "R13.3", g, g.node, "co-population", "svd fills the U blocks, the singular values and the V blocks in one loop over the input blocks")
 
 
+class NVec:
+    """a concrete small vector of exact rationals (a spectrum): only what the cutoff arithmetic of svd_truncated needs"""
+
+    _abstract = True
+
+    def __init__(self, vals, tag=None):
+        self.vals = tuple(vals)
+        self.tag = tag
+        self.term = ("nvec", tag, self.vals)
+
+    @property
+    def shape(self):
+        return (len(self.vals),)
+
+    @property
+    def size(self):
+        return len(self.vals)
+
+    def _el(self, o, fn):
+        if isinstance(o, NVec):
+            return NVec(fn(a, b) for a, b in zip(self.vals, o.vals))
+        return NVec(fn(a, o) for a in self.vals)
+
+    def __getitem__(self, k):
+        if isinstance(k, tuple):
+            (k,) = k
+        if isinstance(k, slice):
+            return NVec(self.vals[k], self.tag)
+        return self.vals[k]
+
+    def __pow__(self, e):
+        return self._el(e, lambda a, b: a ** b)
+
+    def __mul__(self, o):
+        return self._el(o, lambda a, b: a * b)
+
+    __rmul__ = __mul__
+
+    def __ge__(self, o):
+        return self._el(o, lambda a, b: a >= b)
+
+    def __gt__(self, o):
+        return self._el(o, lambda a, b: a > b)
+
+    def __le__(self, o):
+        return self._el(o, lambda a, b: a <= b)
+
+    def __lt__(self, o):
+        return self._el(o, lambda a, b: a < b)
+
+    def reshape(self, *a):
+        return self
+
+    def __len__(self):
+        return len(self.vals)
+
+
+def _expected_kept(spectra, cutoff, mode, max_bond):
+    """the property's prescription: the largest values permitted by the cutoff rule, intersected with the bond limit"""
+    allv = sorted((v for vs in spectra.values() for v in vs))
+    if mode == 1:
+        thr_keep = [v for v in allv if v >= cutoff]
+    elif mode == 2:
+        thr_keep = [v for v in allv if v >= allv[-1] * cutoff]
+    else:
+        power = 2 if mode in (3, 4) else 1
+        total = sum(v ** power for v in allv)
+        bound = cutoff * total if mode in (4, 6) else cutoff
+        acc, keep_from = 0, None
+        for i, v in enumerate(allv):  # ascending: discard while the discarded weight stays below the bound
+            acc += v ** power
+            if acc >= bound:
+                keep_from = i
+                break
+        thr_keep = allv[keep_from:] if keep_from is not None else []
+    if max_bond > 0:
+        thr_keep = thr_keep[-max_bond:] if len(thr_keep) > max_bond else thr_keep
+    kept = set(thr_keep)
+    return {c: sum(1 for v in vs if v in kept) for c, vs in spectra.items()}
+
+
+def check_cutoff_semantics(prog, ctx):
+    """R13.5: svd_truncated with a positive cutoff is evaluated on exact rational spectra (distinct values, several charges) for all six
+    cutoff modes, cutoffs from tiny to beyond the total weight and bond limits from 1 to beyond the rank; the number of values kept per
+    charge must be the one the cutoff rule intersected with the bond limit prescribes, and must not grow with the cutoff."""
+    from fractions import Fraction as F
+
+    from engine.absarray import STok, shaped_evaluator, shaped_libfn
+    from engine.absarray import make_index
+    from engine.minieval import Obj, Raised, Unsupported
+
+    rid = "R13.5"
+    f = prog.func("symmray.linalg:svd_truncated")
+    arr = prog.cls("AbelianArray")
+    vec = prog.cls("BlockVector")
+    base = shaped_libfn()
+
+    def get(backend, name):
+        short = name.split(".")[-1]
+        if short == "concatenate":
+            def cat(parts, axis=0):
+                parts = list(parts)
+                if all(isinstance(p_, NVec) for p_ in parts):
+                    return NVec([v for p_ in parts for v in p_.vals])
+                return base(backend, name)(parts, axis=axis)
+            return cat
+        return base(backend, name)
+
+    def ar_do(name, *args, like=None, **kw):
+        x = args[0] if args else None
+        if isinstance(x, NVec):
+            if name == "sort":
+                return NVec(sorted(x.vals))
+            if name == "cumsum":
+                out, acc = [], 0
+                for v in x.vals:
+                    acc += v
+                    out.append(acc)
+                return NVec(out)
+            if name == "count_nonzero":
+                return sum(1 for v in x.vals if v)
+            if name == "sqrt":
+                return NVec([("sqrt", v) for v in x.vals])
+            raise AnalysisError(f"svd_truncated applies backend function {name!r} to the spectrum: extend rules/c13_trunc.check_cutoff_semantics")
+        return get(like, name)(*args, **kw)
+
+    spectra_sets = [
+        {0: [F(5), F(3), F(1, 2)], 1: [F(4), F(11, 10), F(1)]},
+        {2: [F(7), F(2)], 0: [F(6), F(5, 2), F(3, 10)], 1: [F(9, 10)]},
+        {0: [F(3)], 1: [F(2), F(1)]},
+    ]
+    wit = {}
+    n = 0
+    for spectra in spectra_sets:
+        total_n = sum(len(v) for v in spectra.values())
+        w1 = sum(v for vs in spectra.values() for v in vs)
+        w2 = sum(v * v for vs in spectra.values() for v in vs)
+        for mode in (1, 2, 3, 4, 5, 6):
+            scale = {1: max(max(v) for v in spectra.values()), 2: F(1), 3: w2, 4: F(1), 5: w1, 6: F(1)}[mode]
+            cutoffs = [scale * q for q in (F(1, 1000), F(1, 10), F(3, 10), F(1, 2), F(7, 10), F(99, 100), F(1), F(3, 2))]
+            for max_bond in (-1, 1, 2, total_n - 1, total_n, total_n + 3):
+                prev = None
+                for cutoff in cutoffs:
+                    if cutoff <= 0:
+                        continue
+                    sectors = [(c, c) for c in spectra]
+                    ub = {sec: STok(("U", sec), (4, len(spectra[sec[1]]))) for sec in sectors}
+                    sb = {c: NVec(vs, c) for c, vs in spectra.items()}
+                    vb = {(c, c): STok(("V", c), (len(spectra[c]), 6)) for c in spectra}
+                    bond = {c: len(spectra[c]) for c in sorted(spectra)}
+                    U = Obj(arr, {"_blocks": ub, "_indices": (make_index(prog, {c: 4 for c in spectra}, False), make_index(prog, bond, True)),
+                                  "_charge": 0, "_symmetry": None})
+                    S = Obj(vec, {"_blocks": sb})
+                    V = Obj(arr, {"_blocks": vb, "_indices": (make_index(prog, bond, False), make_index(prog, {c: 6 for c in spectra}, True)),
+                                  "_charge": 0, "_symmetry": None})
+                    ev = shaped_evaluator(prog, extra={"svd": lambda x, _r=(U, S, V): _r, "ar.do": ar_do, "ar.get_lib_fn": get})
+                    where = f"spectra={ {c: [str(v) for v in vs] for c, vs in spectra.items()} } mode={mode} cutoff={cutoff} max_bond={max_bond}"
+                    try:
+                        Ur, Sr, Vr = ev.call(f, [U], {"cutoff": cutoff, "cutoff_mode": mode, "max_bond": max_bond, "absorb": None})
+                    except Unsupported as e:
+                        raise AnalysisError(f"svd_truncated (cutoff branch) outside the evaluable sub-language: {e}")
+                    except (Raised, KeyError, TypeError, AttributeError, IndexError, ValueError) as e:
+                        wit.setdefault("runs", f"{where}: {type(e).__name__}: {getattr(e, 'what', e)}")
+                        continue
+                    n += 1
+                    got = {c: 0 for c in spectra}
+                    got.update(dict(Ur.fields["_indices"][1].fields["_chargemap"]))
+                    want = _expected_kept(spectra, cutoff, mode, max_bond)
+                    if got != want:
+                        wit.setdefault("kept", f"{where}: kept per charge {got}, the cutoff rule intersected with the bond limit prescribes {want}")
+                    kept_vals = {c: tuple(Sr.fields["_blocks"][c].vals) if c in Sr.fields["_blocks"] else () for c in spectra}
+                    if any(kept_vals[c] != tuple(sorted(spectra[c], reverse=True)[:len(kept_vals[c])]) for c in spectra):
+                        wit.setdefault("largest", f"{where}: the kept values {kept_vals} are not the largest ones of their charge")
+                    tot = sum(got.values())
+                    if prev is not None and tot > prev:
+                        wit.setdefault("monotone", f"{where}: {tot} values kept, a smaller cutoff kept {prev}")
+                    prev = tot
+    ctx.need(n >= 500 or wit, f"R13.5: only {n} evaluations")
+    for key, msg in (("runs", "svd_truncated evaluates on every exact spectrum"),
+                     ("kept", "with a positive cutoff the number of values kept per charge is what the selected cutoff rule intersected with the "
+                              "bond limit prescribes (six modes, cutoffs up to beyond the total weight, bond limits up to beyond the rank)"),
+                     ("largest", "the kept values are the largest ones of their charge"),
+                     ("monotone", "a larger cutoff never keeps more")):
+        ctx.check(key not in wit, rid, f, f.node, key, msg + f" ({n} evaluations)" + ("" if key not in wit else f" — witness: {wit[key]}"))
+
+
 def check_together(prog, ctx):
     check_truncation_semantics(prog, ctx)
 
@@ -239,5 +425,8 @@ def run(prog, ctx):
     ctx.rule("R13.3", "per-sector counts are produced from s.blocks in stored order and consumed zipped with U.sectors; the dicts are "
              "co-populated in svd; no one-sided re-ordering")
     ctx.rule("R13.4", "U, s and VH are truncated with the same count and removed together; one new bond table goes to both factors")
+    ctx.rule("R13.5", "abstract evaluation on exact rational spectra: kept counts per charge = cutoff rule (six modes) intersected with the bond "
+                      "limit; kept values are the largest; monotone in the cutoff")
     check_negated_index(prog, ctx)
     check_truncation_semantics(prog, ctx)
+    check_cutoff_semantics(prog, ctx)
